@@ -69,7 +69,7 @@ Step(m, e) ==
     [] e.ev = "Ret" /\ e.op = "SD" ->
          <<[m EXCEPT !.sdRet = (@ \/ e.err = ""), !.sdRetErr = (@ \/ e.err # "")],
            IF e.err = "" /\ Missing(m, m.snap[e.proc]) # {}
-           THEN {[kind |-> IF DrainOutlives(m) THEN "shutdown-missed-drain-outlives-expired-shutdown"
+           THEN {[kind |-> IF DrainOutlives(m) THEN "shutdown-nil-while-expired-drain-runs"
                            ELSE IF Missing(m, m.snap[e.proc]) \subseteq m.raced THEN "shutdown-missed-raced"
                            ELSE "shutdown-missed",
                   proc |-> e.proc, missing |-> Missing(m, m.snap[e.proc])]} ELSE {}>>
@@ -82,8 +82,9 @@ Step(m, e) ==
            \cup (IF m.inflight THEN {[kind |-> "concurrent-export"]} ELSE {})
            \cup (IF m.expShut THEN {[kind |-> "export-after-shutdown"]}
                  ELSE IF ~(m.sdRet \/ m.sdRetErr) THEN {}
-                 ELSE IF DrainOutlives(m) THEN {[kind |-> "export-after-expired-shutdown"]}
-                 ELSE {[kind |-> "export-after-shutdown"]})
+                 ELSE IF ~DrainOutlives(m) THEN {[kind |-> "export-after-shutdown"]}
+                 ELSE IF m.sdRet THEN {[kind |-> "export-after-nil-shutdown-while-expired-drain-runs"]}
+                 ELSE {[kind |-> "export-after-expired-shutdown"]})
            \cup (IF ids \cap (m.dropped \cup m.ignored \cup m.abandoned) # {} THEN {[kind |-> "exported-a-dropped-span"]} ELSE {})
            \* ExportTimeout > 0 <=> the exporter's ctx carries a deadline (a ForceFlush export inherits its caller's)
            \cup (IF m.cfg.kind = "batch" /\ m.cfg.exportTimeout /\ ~e.deadline THEN {[kind |-> "export-without-deadline"]} ELSE {})
